@@ -175,6 +175,15 @@ func (w *WS) SaneEnv() []string {
 
 // Run executes a command with a generous watchdog.
 func Run(bin, cwd string, env []string, timeout time.Duration, stdin []byte, args ...string) Result {
+	return RunTo("", bin, cwd, env, timeout, stdin, args...)
+}
+
+// RunTo is Run with the child's standard output opened on stdoutPath (e.g. /dev/full: every write fails with ENOSPC); "" = captured.
+func RunTo(stdoutPath, bin, cwd string, env []string, timeout time.Duration, stdin []byte, args ...string) Result {
+	return RunToMode(stdoutPath, os.O_WRONLY, bin, cwd, env, timeout, stdin, args...)
+}
+
+func RunToMode(stdoutPath string, mode int, bin, cwd string, env []string, timeout time.Duration, stdin []byte, args ...string) Result {
 	ctx, cancel := context.WithTimeout(context.Background(), timeout)
 	defer cancel()
 	cmd := exec.CommandContext(ctx, bin, args...)
@@ -196,6 +205,14 @@ func Run(bin, cwd string, env []string, timeout time.Duration, stdin []byte, arg
 	}
 	cmd.Stdout = so
 	cmd.Stderr = se
+	if stdoutPath != "" {
+		f, err := os.OpenFile(stdoutPath, mode, 0)
+		if err != nil {
+			return Result{Exit: -1, Stderr: "exec error: " + err.Error()}
+		}
+		defer f.Close()
+		cmd.Stdout = f
+	}
 	if stdin != nil {
 		cmd.Stdin = bytes.NewReader(stdin)
 	}
